@@ -117,6 +117,41 @@ def adaptive_walks(case, walks):
         im.close()
 
 
+def client_sees_fragments(ctx):
+    from props import c07
+    import struct
+    for ty, cnt, maxb in (('SINT', 5, 1), ('USINT', 3, 2), ('BOOL', 4, 1), ('SINT', 1, 488), ('INT', 3, 2), ('SINT', 9, 4), ('DINT', 2, 4)):
+        sz = L.SIZ[ty]
+        tag = dict(name='F', ty=ty, scalar=False, n=cnt, addr=None, init=[L.rand_val(ctx.rng, ty) for _ in range(cnt)])
+        im = L.Impl(maxb, [tag])
+        try:
+            frames, want, off = [], [], 0
+            for _ in range(cnt + 2):
+                b, d = im.request(('readf', ('sym', 'F', 0), cnt, off))
+                if b is None:
+                    return dict(tag_type=ty, tag_length=cnt, max_bytes=maxb), 'Read Tag Fragmented raised'
+                svc, status, ext, pay = L.parse_reply(b)
+                data = bytes(pay[2:])
+                fmt = {'SINT': 'b', 'USINT': 'B', 'BOOL': 'B', 'INT': 'h', 'DINT': 'i'}[ty]
+                vals = list(struct.unpack('<%d%s' % (len(data) // sz, fmt), data))
+                if ty == 'BOOL':
+                    vals = [bool(v) for v in vals]
+                frames.append(c07._frame(b)); want.append((status, [repr(v) for v in vals]))
+                off += len(data)
+                if status == 0:
+                    break
+        finally:
+            im.close()
+        try:
+            got = c07.client_view(frames)
+        except Exception as e:
+            got = '%s: %s' % (type(e).__name__, str(e)[:100])
+        if got != want:
+            return (dict(tag_type=ty, tag_length=cnt, max_bytes=maxb, fragments=[f[40:].hex() for f in frames], client=repr(got)[:300], read_off_the_bytes=repr(want)[:300]),
+                    'the client does not obtain the fragments\' status and elements (a fragment reply is mistaken for something else)')
+    return None
+
+
 def run(ctx):
     ctx.prove()
     cases, allwalks = [], []
@@ -148,6 +183,17 @@ def run(ctx):
     big = (488, [dict(name='F', ty='DINT', scalar=False, n=n, addr=None, init=vals)], [])
     res = adaptive_walks(big, [('read', 0, n, 0, 0), ('read', 16000, 600, 0, 0)])
     cov['big_transfer_elements'] = n
+    # element counts that need all 16 bits of the count field: SINT[40000] moved completely, and its last 33000 elements
+    if res is None:
+        n2 = 40000
+        big2 = (488, [dict(name='F', ty='SINT', scalar=False, n=n2, addr=None, init=[('i', (k * 31) % 251 - 125) for k in range(n2)])], [])
+        res = adaptive_walks(big2, [('read', 0, n2, 0, 0), ('read', 7000, 33000, 0, 0)])
+        n = n2
+    # the official client's view of the same fragments: every reply of a sample of transfers, wrapped as the simulator sends it, is
+    # parsed by client.connector.collect; status and values must be the ones read off the bytes (a one-element fragment of a 1-byte
+    # type is as long as a bare error reply)
+    if res is None:
+        res = client_sees_fragments(ctx)
     if res is not None:
         nbad += 1
         ctx.violation(dict(tag_type='DINT', tag_length=n, max_bytes=488, transfer=res[0]), res[1])
